@@ -23,6 +23,7 @@ RULE = ('seeded frames: 0-6 locals holding generated object graphs (scalars, nes
 ASSUMPTIONS = ['values stay inside the default collection limits (limits are C05), friendly types only (hostile '
                'types are C06)', 'expressions are side-effect free, so evaluating them twice is sound',
                'order of variables within a frame is not part of the property']
+RULE += '; the paused frame is a plain function, a method, a closure (free variables are locals too and visible to watches), a generator, a coroutine, a function of a function-local class or top-level code (<module> frame: the locals are the globals)'
 REQUIRE = {'paused_frame_module': 15, 'paused_frame_closure': 20, 'paused_frame_generator': 20, 'paused_frame_coroutine': 20, 'paused_frame_nested_class': 20, 'snapshots_compared': 150, 'entries_compared': 1500, 'watches_compared': 50, 'frames_compared': 300,
            'time_budget_cases': 10}
 
